@@ -514,6 +514,15 @@ func (c *ChannelArbitrator) progressStateMachineAfterRestart(bestHeight int32,
 		case StateBroadcastCommit:
 			fallthrough
 		case StateCommitmentBroadcasted:
+			fallthrough
+
+		// If we stopped after committing StateContractClosed but
+		// before the resolvers were written, the state must be
+		// re-executed with the close trigger as well: with the chain
+		// trigger the HTLCs are only classified if one of them is
+		// about to expire, and otherwise no resolver would be created
+		// at all.
+		case StateContractClosed:
 			switch c.cfg.CloseType {
 
 			case channeldb.CooperativeClose:
